@@ -311,7 +311,7 @@ PROPS["C09"] = {
         H("c09::c09_robust_history_cap2", covers=3, timeout=1500, mem_gb=10, unwindset=_ROBUST_SEQ,
           what="StaticRobustUniqueIndexSet<2>: acquire/release(owner, mode)/recover(dead owner) history vs owner model",
           bounds="unwind 8; 3 steps (add/remove), 2 owners"),
-        H("c09::c09_robust_history_cap3", covers=4, timeout=5400, mem_gb=12, tiers=("thorough",), unwindset=_ROBUST_SEQ,
+        H("c09::c09_robust_history_cap3", covers=4, timeout=5400, mem_gb=22, tiers=("thorough",), unwindset=_ROBUST_SEQ,
           what="robust set, capacity 3", bounds="unwind 5; 4 steps"),
         H("c09::sched::c09_s_uis_race_cap2", crate="hs", covers=2, timeout=2400, mem_gb=14, tiers=("quick", "thorough"),
           what="two threads racing acquire/release on the real free list; exclusivity, bounds, legitimate failures, "
@@ -893,7 +893,7 @@ c19_cross_domain_direct c19_cross_domain_direct_mixed_len c19_path_for_shape
 c12_s_reader_outer_deep c12_s_writer_outer_deep
 c05_ev_id_out_of_range
 c13_q_mismatch_buffer_same_role c13_q_race_detach_after_registration_mismatch
-c09_uis_history_cap3 c09_uis_history_cap4
+c09_uis_history_cap3 c09_uis_history_cap4 c09_robust_history_cap3
 c03_seq_index_queue_cap3 c03_seq_overflow_queue_cap3 c03_seq_spsc_queue_cap3
 c03_s_overflow_cap1_producer_outer c03_s_overflow_cap1_consumer_outer
 """.split())
